@@ -230,3 +230,24 @@ Definition Spec (i : input) (o : outcome) : Prop :=
         (s_name s = [o_name (opts_of i)] \/ (s_name s = [] /\ o_name (opts_of i) = "")) /\
         (exists vs, (s_vars s = [JObj vs] \/ (s_vars s = [] /\ vs = [])) /\ vars_spec i vs)
     end.
+
+(* ---------- JSON strings, declaratively (RFC 8259, section 7) ---------- *)
+(* [denotes t s]: the text t between the quotes of a JSON string stands for the byte string s *)
+Local Open Scope N_scope.
+
+Definition hex4 (h1 h2 h3 h4 : N) : option N :=
+  match hexval h1, hexval h2, hexval h3, hexval h4 with
+  | Some a, Some b, Some c, Some d => Some (((a * 16 + b) * 16 + c) * 16 + d)
+  | _, _, _, _ => None
+  end.
+
+(* char = unescaped / escape ( quotation-mark, reverse-solidus, solidus, b, f, n, r, t, uXXXX );
+   unescaped = %x20-21 / %x23-5B / %x5D-10FFFF (here: any byte from 0x20 on except the two) *)
+Inductive denotes : list N -> list N -> Prop :=
+| D_nil : denotes [] []
+| D_char c t s : 32 <= c -> c <> 34 -> c <> 92 -> denotes t s -> denotes (c :: t) (c :: s)
+| D_simple c b t s : simple_esc c = Some b -> denotes t s -> denotes (92 :: c :: t) (b :: s)
+| D_u h1 h2 h3 h4 cp o t s :
+    hex4 h1 h2 h3 h4 = Some cp -> utf8_enc cp = Some o -> denotes t s ->
+    denotes (92 :: 117 :: h1 :: h2 :: h3 :: h4 :: t) (o ++ s)%list.
+
